@@ -21,7 +21,7 @@ def strip_generics(p):
     prev = None
     while prev != s:
         prev = s
-        s = re.sub(r"::<[^<>]*>", "", s)
+        s = re.sub(r"::<(?!impl )(?![^<>]* as )[^<>]*>", "", s)
     return s
 
 
@@ -32,10 +32,14 @@ def short(p):
         return None
     s = strip_generics(p)
     # qualified paths: <X as Y>::m  -> keep 'Y::m'
-    m = re.match(r"^(?:[\w:]*::)?<(.+) as (.+)>::(\w+)$", s)
+    m = re.match(r"^(?:[\w:]*::)?<(.+) as (.+)>::(\w+)((?:::\{closure#\d+\})*)$", s)
     if m:
         tr = re.sub(r"<.*$", "", m.group(2)).split("::")[-1]
-        return tr + "::" + m.group(3)
+        return tr + "::" + m.group(3) + m.group(4)
+    m = re.match(r"^(?:[\w:]*::)?<impl (.+) for (.+)>::(\w+)((?:::\{closure#\d+\})*)$", s)
+    if m:
+        tr = re.sub(r"<.*$", "", m.group(1)).split("::")[-1]
+        return tr + "::" + m.group(3) + m.group(4)
     s = re.sub(r"<[^<>]*>", "", s)
     segs = [x for x in s.split("::") if x]
     return "::".join(segs[-2:])
@@ -56,6 +60,9 @@ def qself(p):
     m = re.match(r"^(?:[\w:]*::)?<(.+) as ([^>]+(?:<.*>)?)>::(\w+)$", p)
     if m:
         return m.group(1), m.group(2), m.group(3)
+    m = re.match(r"^(?:[\w:]*::)?<impl (.+) for (.+)>::(\w+)$", p)
+    if m:
+        return m.group(2), m.group(1), m.group(3)
     return None
 
 
